@@ -197,6 +197,8 @@ fn run_memory(t: &mut Tape, cx: &mut Cx) -> Result<(), String> {
                         let ok = cmp_unit(&what, &rv, &rs)?;
                         b.fr.canaries_ok()?;
                         if !ok {
+                            // a failed write_all has written what fits: nothing is left of the slice
+                            ensure!(v.len() == s.len(), "{}: after the failed call {} bytes of the sink are left (volatile) vs {} (std)", what, v.len(), s.len());
                             cx.count("failed_exact_resync", 1);
                             break;
                         }
@@ -276,6 +278,9 @@ fn run_memory(t: &mut Tape, cx: &mut Cx) -> Result<(), String> {
                         let ok = cmp_unit(&what, &rv, &rs)?;
                         b.fr.canaries_ok()?;
                         if !ok {
+                            // write_all is a loop of writes: what a failed call leaves behind is
+                            // determined (unlike read_exact): the cursor is at the end of the slice
+                            ensure!(v.position() == s.position(), "{}: after the failed call the cursor is at {:#x} (volatile) vs {:#x} (std)", what, v.position(), s.position());
                             cx.count("failed_exact_resync", 1);
                             break;
                         }
@@ -780,7 +785,7 @@ pub fn property() -> Property {
     Property {
         id: "C13",
         rule: "a case = one adapter (&[u8], Cursor<&[u8]>, Cursor<Vec<u8>>, &mut [u8], Vec<u8>, Cursor<&mut [u8]>; File, UnixStream, pipe ends as OwnedFd/BorrowedFd, loopback TcpStream) with stream content of 0..40 bytes, cursor positions incl. at/after the end and near u64::MAX, and a sequence of 1..8 calls mixing the plain and the exact variants with buffer lengths 0..24 dense around 7/8/9 at any alignment inside canaries; the identical sequence runs on the std::io counterpart with an ordinary buffer; xen build: File / UnixStream / &[u8] / Vec adapters with the volatile buffer inside an emulated region (incl. grant regions mapped on demand, windows straddling a page boundary), the region read back through the device file; compared after every call: result (count or error kind), bytes landed, untouched tail, canaries, stream state (remaining length / position / sink contents / file position); non-trivial = a call after a short transfer, a stream at its end, a buffer longer than what is left, a cursor past the end, a buffer length in 7..=9, a socket round trip; distinct = decoded (adapter, content, sequence)",
-        assumptions: &["after a failed exact call, position and buffer content are unspecified by std and are not compared (sequence ends, counted)", "TCP segment boundaries are not deterministic: totals are compared", "real EINTR is not injected (C14 scripts it)"],
+        assumptions: &["after a failed read_exact, position and buffer content are unspecified by std and are not compared (sequence ends, counted); after a failed write_all (a loop of writes) sink contents and cursor position are compared", "TCP segment boundaries are not deterministic: totals are compared", "real EINTR is not injected (C14 scripts it)"],
         subchecks: vec![
             SubCheck { name: "memory", builds: &[Build::Std], kind: Kind::Random { quick: 60_000, thorough: 3_000_000, max_words: 64 }, run: run_memory },
             SubCheck { name: "fd", builds: &[Build::Std], kind: Kind::Random { quick: 4_000, thorough: 120_000, max_words: 64 }, run: run_fd },
